@@ -158,6 +158,10 @@ def thread_smoke(real, ctx):
     try:
         th.start()
         addr = ("9.9.9.9", 9)
+        for _ in range(6000):              # the thread has announced itself (robust on a loaded machine)
+            if idents:
+                break
+            time.sleep(0.01)
 
         def pump(feeder=False):
             real.now += 32
@@ -189,15 +193,18 @@ def thread_smoke(real, ctx):
         f.join()
     finally:
         ctxt._active = False
-        th._wake()
-        th.join(5)
+        for _ in range(120):
+            th._wake()
+            th.join(1)
+            if not th.is_alive():
+                break
         S.sleep, S.time = saved_sleep, saved_time
     tids = {t for _, t in idents}
     kinds = {k for k, _ in idents}
     ctx.notes["thread_smoke"] = {"events": len(idents), "kinds": sorted(kinds), "threads": len(tids), "alive_after_join": th.is_alive()}
     if th.is_alive():
         ctx.failure("server-thread-did-not-stop", "the server thread did not exit after shutdown was requested", {"smoke": True})
-    elif len(tids) != 1 or threading.get_ident() in tids:
+    elif len(tids) > 1 or threading.get_ident() in tids:
         ctx.failure("handler-events-on-several-threads", "handler events ran on %d threads" % len(tids), {"smoke": True})
     elif not {"connect", "message", "disconnect", "shutdown"} <= kinds:
         ctx.notes["thread_smoke"]["incomplete"] = True
